@@ -142,3 +142,112 @@ def all_truth(ids: List[str], rng, cap: int = 64) -> Iterator[Dict[str, Any]]:
 
 def chain_class(name: str, bases: List[str], members: List[Dict[str, Any]], invs=None, dbc=True) -> Dict[str, Any]:
     return {"name": name, "bases": bases, "dbc": dbc, "invs": invs or [], "members": members}
+
+
+# ---------------------------------------------------------------------------------------------------------------------
+# inheritance DAGs
+# ---------------------------------------------------------------------------------------------------------------------
+
+def dag_shapes(n: int, max_bases: int = 2) -> List[List[List[int]]]:
+    """All base-assignments for classes 0..n-1 (class i derives from earlier classes; [] = directly from DBC)
+    for which Python can compute an MRO. Each shape is a list of base-index lists."""
+    shapes = []  # type: List[List[List[int]]]
+
+    def options(i: int) -> List[List[int]]:
+        opts = [[]]  # type: List[List[int]]
+        for k in range(1, max_bases + 1):
+            for combo in itertools.permutations(range(i), k):
+                opts.append(list(combo))
+        return opts
+
+    def rec(i: int, acc: List[List[int]], pys: List[type]) -> None:
+        if i == n:
+            shapes.append([list(b) for b in acc])
+            return
+        for bases in options(i):
+            try:
+                py = type("S{}".format(i), tuple(pys[b] for b in bases), {})
+            except TypeError:
+                continue
+            rec(i + 1, acc + [bases], pys + [py])
+
+    rec(0, [], [])
+    return shapes
+
+
+MEMBER_CHOICES = ("absent", "plain", "pre", "post", "both")
+
+
+def hier_program(ids: Ids, rng, shape: List[List[int]], kind: str, is_async: bool, choices: Optional[List[str]] = None,
+                 allow_reject: bool = False, inv_prob: float = 0.3, max_conj: int = 2, forms=None, errs=None,
+                 with_snaps: bool = True, avoid_mixed: bool = False, dbc_root: bool = True) -> Dict[str, Any]:
+    """One hierarchy (classes K<n>) with one member of the given kind declared/overridden per ``choices``."""
+    from vkit.model import Model  # pylint: disable=import-outside-toplevel
+
+    base = ids.new("m")
+    classes = []  # type: List[Dict[str, Any]]
+    names = []  # type: List[str]
+    key = member_name(kind, base)
+    mkind = "method" if kind == "call" else kind
+    for i, bases in enumerate(shape):
+        cname = ids.new("K")
+        choice = choices[i] if choices else rng.choice(MEMBER_CHOICES)
+        if i == 0 and choice == "absent" and not choices:
+            choice = rng.choice(MEMBER_CHOICES[1:])
+        for attempt in range(4):
+            members = []
+            if choice != "absent":
+                n_pre = rng.randint(1, max_conj) if choice in ("pre", "both") else 0
+                n_post = rng.randint(1, max_conj) if choice in ("post", "both") else 0
+                n_snap = rng.randint(0, 1) if (n_post and with_snaps) else 0
+                m = make_member(ids, rng, kind, base, is_async, n_pre, n_post, n_snap, forms, errs)
+                if kind in ("pset", "pdel"):
+                    members.append(make_member(ids, rng, "pget", base, False, 0, 0, 0))
+                members.append(m)
+            invs = [make_inv(ids, rng, errs=errs) for _ in range(rng.randint(1, 2))] if rng.random() < inv_prob else []
+            cls = chain_class(cname, [names[b] for b in bases], members, invs)
+            trial = {"funcs": [], "classes": classes + [cls]}
+            model = Model(trial)
+            if kind in ("init", "new") and invs and model.owner(cname, key) is None:
+                # a class with invariants but no Python-level constructor gets its __new__ wrapped; subclasses adding
+                # a constructor with arguments are C03/C14's business
+                cls["invs"] = []
+            rej = model.class_rejection(cname)
+            mixed = False
+            if avoid_mixed and choice != "absent":
+                k2 = key if mkind not in ("pget", "pset", "pdel") else "{}.{}".format(base, mkind)
+                flags = []
+                for b in model.bases(cname):
+                    bo = model.owner(b, k2)
+                    if bo is not None:
+                        flags.append(bool(model.eff_pre(bo, k2)))
+                mixed = bool(flags) and any(flags) and not all(flags)
+            if (rej is None and not mixed) or (allow_reject and rej in ("TypeError", "ValueError") and not mixed):
+                break
+            # downgrade the choice until the class is acceptable
+            choice = {"both": "post", "pre": "plain", "post": "plain", "plain": "absent"}.get(choice, "absent")
+        classes.append(cls)
+        names.append(cname)
+        if allow_reject and rej is not None:
+            break
+    return {"funcs": [], "classes": classes, "member": base, "kind": kind, "key": key if mkind not in ("pget", "pset", "pdel")
+            else "{}.{}".format(base, mkind)}
+
+
+def effective_ids(model, cls: str, key: str) -> List[str]:
+    """Ids of every contract that can be evaluated by an operation ``key`` on an instance of ``cls``."""
+    o = model.owner(cls, key)
+    out = []  # type: List[str]
+    if o is None:
+        return out
+    m = model.defines(o, key)
+    for g in model.eff_pre(o, key):
+        for c in g:
+            out.append(c["id"])
+    for c in model.eff_post(o, key):
+        out.append(c["id"])
+    if model.wrapped_for_invariants(m):
+        for i in model.invs_on(cls, "CALL"):
+            out.append(i["id"])
+    seen = set()
+    return [x for x in out if not (x in seen or seen.add(x))]
